@@ -430,7 +430,7 @@ func keyfileCase(c *Ctx, dir string, entropy []byte, pw string, flips int) {
 	sealed := refSeal(dk, nonce, entropy)
 	c.Emit("wl-encrypt %s %s %s %s %s %s %s | baseAddress=%s cipherName=%s kdf=%s cipherData=%s nonce=%s salt=%s version=%d",
 		hx(entropy), hx(ks.BaseAddress.Bytes()), hx([]byte(pw)), hx(salt), hx(nonce), hx(dk), hx(sealed),
-		hx(addr.Bytes()), j.Crypto.CipherName, j.Crypto.KDF, hx(ct), hx(nonce), hx(salt), j.Version)
+		hx(addr.Bytes()), j.Crypto.CipherName, j.Crypto.KDF, j.Crypto.CipherData, j.Crypto.Nonce, j.Crypto.Argon2Params.Salt, j.Version)
 	c.Hit("encrypt")
 	// monitors on the file: recorded address = index-0 address; nonce / salt sizes; independent AEAD agrees
 	kp0, _ := wallet.DeriveWithIndex(0, ks.Seed)
@@ -564,6 +564,28 @@ func keyfileCase(c *Ctx, dir string, entropy []byte, pw string, flips int) {
 		fs := [3][]byte{append([]byte{}, ct...), append([]byte{}, nonce...), append([]byte{}, salt...)}
 		st.f(&fs)
 		dec(st.tag, writeFields(fs), pw, false, fs)
+	}
+	// text level: the byte fields as JSON strings, well-formed and malformed (no 0x, odd length, non-hex, upper case)
+	for _, tc := range []struct{ tag, val string }{
+		{"plain", j.Crypto.Nonce}, {"no-prefix", strings.TrimPrefix(j.Crypto.Nonce, "0x")}, {"odd", j.Crypto.Nonce + "0"},
+		{"non-hex", "0xzz" + j.Crypto.Nonce[4:]}, {"upper", "0x" + strings.ToUpper(j.Crypto.Nonce[2:])}, {"upper-prefix", "0X" + j.Crypto.Nonce[2:]},
+	} {
+		if flips >= 0 && c.R.Intn(3) != 0 {
+			continue
+		}
+		var g map[string]interface{}
+		json.Unmarshal(raw, &g)
+		g["crypto"].(map[string]interface{})["nonce"] = tc.val
+		out, _ := json.Marshal(g)
+		tp := kf.Path + ".text"
+		os.WriteFile(tp, out, 0o600)
+		kf3, err := wallet.ReadKeyFile(tp)
+		obs := "err json"
+		if err == nil {
+			obs = fmt.Sprintf("ok %s %s %s", hx(kf3.Crypto.CipherData), hx(kf3.Crypto.AesNonce), hx(kf3.Crypto.Argon2Params.Salt))
+		}
+		c.Emit("wl-text %s %s %s | %s", j.Crypto.CipherData, tc.val, j.Crypto.Argon2Params.Salt, obs)
+		c.Hit("text:" + tc.tag + ":" + strings.Fields(obs)[0])
 	}
 	// header checks of ReadKeyFile
 	for _, m := range []struct {
